@@ -80,14 +80,21 @@ def resolve_action(op: List, n_actions: int, meta: Optional[Dict]) -> int:
 CATS = ["idle", "power", "scan", "nic", "service", "app", "file", "folder", "user", "session", "nmap", "acl", "port", "missing"]
 
 
-def ops_strategy(max_ops: int = 30, gen: bool = True):
-    step = st.tuples(st.just("step"), st.integers(0, 10**6)).map(list)
-    ops = [step]
-    if gen:
-        cat = st.tuples(st.just("cat"), st.sampled_from(CATS), st.integers(0, 200)).map(list)
-        ops = [step, cat, cat, cat]
-    reset = st.tuples(st.just("reset"), st.sampled_from([None, None, 1, 7])).map(list)
-    return st.lists(st.one_of(*ops, *ops, *ops, reset), min_size=1, max_size=max_ops)
+def ops_strategy(max_ops: int = 30, gen: bool = True, reset_weight: int = 2):
+    """Op lists. Weighted by a drawn selector (st.one_of collapses repeated identical branches, so repetition is not a
+    weight): about reset_weight/24 of the ops are resets, the rest steps (category-biased in generated scenarios)."""
+
+    def mk(t):
+        k, a, cat, j, seed = t
+        if k < reset_weight:
+            return ["reset", seed]
+        if gen and k >= 8:
+            return ["cat", cat, j]
+        return ["step", a]
+
+    op = st.tuples(st.integers(0, 23), st.integers(0, 10**6), st.sampled_from(CATS), st.integers(0, 200),
+                   st.sampled_from([None, None, 1, 7])).map(mk)
+    return st.lists(op, min_size=1, max_size=max_ops)
 
 
 @st.composite
